@@ -46,6 +46,7 @@ type gHub struct {
 	hold     bool                                  // gates closed (gated mode)
 	sleep    func(key string, n int) time.Duration // free mode: artificial handler duration
 	notify   chan struct{}
+	pass     []string // calls whose key starts with one of these are logged but never held
 	problems []string // invariant violations seen inside handlers (aliasing buffers)
 }
 
@@ -80,6 +81,11 @@ func (h *gHub) enter(op, obj, base string, numbered bool, off int64, buf []byte,
 	h.seq++
 	c.Start = h.seq
 	c.gated = gate && h.hold
+	for _, pf := range h.pass {
+		if strings.HasPrefix(key, pf) {
+			c.gated = false
+		}
+	}
 	h.calls = append(h.calls, c)
 	h.byKey[key] = append(h.byKey[key], c)
 	var d time.Duration
